@@ -342,3 +342,114 @@ def run_library(sc):
                        "library_trigger": int(sc["trigger"]), "library_csv_reader": int(sc["prod"] == "csv")},
             "sig": digest_of(log), "state_sigs": [], "sim_hours": int(end - t0),
             "cls": "L:" + status, "outcome": {"family": "library", "status": status, "records": n_rec, "consumers": kinds}}
+
+
+# ------------------------------------------------------------------ noise family (engine "N")
+def gen_noise(tape):
+    """2-3 REAL SimplexNoise generators (pull-based, value = f(seed, requested time)) with different seeds, each read
+    by a DebugConsumer of its own step; optionally a WeightedSum of two of them read by a further consumer"""
+    n = tape.weighted([(2, 3), (3, 2)])
+    gens = [{"seed": tape.choice([0, 1, 7, 11, 23, 42]) + 100 * i, "freq": tape.choice([1.0, 0.01]),
+             "tfreq": tape.choice([1.0 / 86400.0, 1.0 / 3600.0]), "octaves": tape.choice([1, 1, 3])} for i in range(n)]
+    cons = [{"gen": i, "step": tape.choice([1, 2, 3, 5, 24]), "start": tape.choice([0, 0, 0, 4])} for i in range(n)]
+    sc = {"engine": "N", "gens": gens, "consumers": cons, "wsum": tape.chance(1, 3), "wstep": tape.choice([1, 2, 6]),
+          "end": tape.choice([6, 12, 30]), "static_weight": tape.chance(1, 2),
+          # the generators declare the time of their outputs (the composition start) - or leave it unset as SimplexNoise
+          # does by default: then the first target that exchanges its metadata decides (recorded finding when that
+          # target, the merger's input, has no time either)
+          "declare_time": not tape.chance(1, 4)}
+    k = n + len(cons) + (3 if sc["wsum"] else 0)
+    sc["perms"] = [[tape.shuffle(list(range(k))), tape.shuffle(list(range(len(cons) + 3)))] for _ in range(4)]
+    return sc
+
+
+def _noise_once(sc, only=None, listing=None, link_order=None):
+    """one composition; `only`: index of the single generator/consumer pair to build (isolation reference)"""
+    import numpy as np
+    import finam as fm
+    from finam.components import DebugConsumer, SimplexNoise, StaticSimplexNoise, WeightedSum
+    got = {}
+    comps, links = [], []
+    gt = T(0) if sc.get("declare_time", True) else None
+
+    def cb(name):
+        got[name] = []
+        return lambda n, d, t: got[name].append((H(t), round(float(np.asarray(d.magnitude).reshape(-1)[0]), 12)))
+    gens = {}
+    for i, g in enumerate(sc["gens"]):
+        if only is not None and i != only:
+            continue
+        gens[i] = SimplexNoise(info=fm.Info(time=gt, grid=fm.NoGrid(), units=""), frequency=g["freq"],
+                               time_frequency=g["tfreq"], octaves=g["octaves"], seed=g["seed"]).with_name(f"gen{i}")
+        comps.append(gens[i])
+    for ci, c in enumerate(sc["consumers"]):
+        if only is not None and c["gen"] != only:
+            continue
+        o = DebugConsumer({"i": fm.Info(time=None, grid=fm.NoGrid(), units="")}, start=T(c["start"]),
+                          step=timedelta(hours=c["step"]), callbacks={"i": cb(f"c{ci}")}).with_name(f"c{ci}")
+        comps.append(o)
+        links.append((gens[c["gen"]].outputs, "Noise", o.inputs, "i"))
+    if sc["wsum"] and only is None:
+        ws = WeightedSum(inputs=["A"]).with_name("ws")
+        if sc["static_weight"]:
+            w = StaticSimplexNoise(info=fm.Info(time=None, grid=fm.NoGrid(), units=""), seed=5).with_name("w")
+        else:
+            w = SimplexNoise(info=fm.Info(time=gt, grid=fm.NoGrid(), units=""), seed=6).with_name("w")
+        wc = DebugConsumer({"i": fm.Info(time=None, grid=fm.NoGrid(), units="")}, start=T(0),
+                           step=timedelta(hours=sc["wstep"]), callbacks={"i": cb("wc")}).with_name("wc")
+        comps += [ws, w, wc]
+        links += [(gens[0].outputs, "Noise", ws.inputs, "A"), (w.outputs, "Noise", ws.inputs, "A_weight"),
+                  (ws.outputs, "WeightedSum", wc.inputs, "i")]
+    order = [i for i in (listing or range(len(comps))) if i < len(comps)]
+    order += [i for i in range(len(comps)) if i not in order]
+    composition = fm.Composition([comps[i] for i in order], print_log=False, log_level=50)
+    lorder = [i for i in (link_order or range(len(links))) if i < len(links)]
+    lorder += [i for i in range(len(links)) if i not in lorder]
+    for li in lorder:
+        a, an, b, bn = links[li]
+        a[an] >> b[bn]
+    status = "ok"
+    try:
+        composition.run(start_time=T(0), end_time=T(sc["end"]))
+    except Exception as e:      # noqa: BLE001
+        status = f"{type(e).__name__}: {str(e)[:200]}"
+    return status, got
+
+
+def run_noise(sc):
+    viol = []
+
+    def v(oracle, kind, msg):
+        viol.append({"oracle": oracle, "kind": kind, "msg": msg + f"; scenario {sc}", "comp": ""})
+
+    st0, base = _noise_once(sc)
+    if st0 != "ok":
+        v("lib-run-raises", st0.split(":")[0], f"composition of noise generators raised {st0}")
+    # every consumer gets what its own generator delivers when it is alone in the composition
+    if st0 == "ok":
+        for i in range(len(sc["gens"])):
+            st, ref = _noise_once(sc, only=i)
+            for name, rows in ref.items():
+                if st == "ok" and base.get(name) != rows:
+                    d = next((a, b) for a, b in zip(base.get(name, []) + [None], rows + [None]) if a != b)
+                    v("lib-value", "noise", f"{name} receives {d[0]} together with the other generators but {d[1]} when its "
+                      f"generator (seed {sc['gens'][i]['seed']}) is alone in the composition")
+                    break
+    # ... and the same whatever the listing and linking order
+    nperm = 0
+    for listing, lorder in sc["perms"]:
+        if viol:
+            break
+        st, got = _noise_once(sc, listing=listing, link_order=lorder)
+        nperm += 1
+        if st != st0:
+            v("order-outcome-differs", "class", f"listing {listing} links {lorder}: {st} vs identity order {st0}")
+        elif got != base:
+            name = next(k for k in base if got.get(k) != base[k])
+            v("order-series-differs", "series", f"listing {listing} links {lorder}: series of {name} differs from the identity "
+              f"order: {got.get(name)[:4]} vs {base[name][:4]}")
+    n_rec = sum(len(x) for x in base.values())
+    return {"violations": viol, "digest": digest_of([sorted(base.items()), st0]), "nontrivial": st0 == "ok" and n_rec >= 4,
+            "faults": {"F7_permutation_executed": nperm}, "probes": {"noise_runs": 1, "noise_records": n_rec},
+            "sig": digest_of([st0, len(sc["gens"]), sc["wsum"]]), "state_sigs": [], "sim_hours": sc["end"] * (1 + nperm),
+            "cls": "N:" + st0.split(":")[0], "outcome": {"family": "noise", "status": st0, "records": n_rec}}
